@@ -1,10 +1,13 @@
 package props
 
 import (
+	"encoding/json"
 	"fmt"
 	"math"
 	"math/rand/v2"
+	"reflect"
 	"runtime"
+	"strings"
 	"sync"
 
 	"github.com/privacybydesign/gabi"
@@ -302,6 +305,65 @@ func c12Descriptor(x *c12ctx, jr *rand.Rand, cred *world.Cred, m int64, sign int
 		dd := p.Respond(c)
 		dd.RangeProofs = map[int][]*rangeproof.Proof{2: {rp.Respond(c)}}
 		x.verifyAndJudge("box-false-ref", fmt.Sprintf("%s lie#%d", desc, vi), dd, cred, ctx, nonce, false)
+	}
+	x.ownResponse(cred, desc, sign, a, k, nsq, ctx, nonce)
+}
+
+// c12OwnResponse: a range proof computed about a foreign value m* for which the statement is TRUE, carrying its own response
+// for m (in memory, and on the wire under every name the field could travel by). The verifier must tie the range proof to the
+// hidden attribute's response of the enclosing proof, whatever the range proof itself brings along.
+func (x *c12ctx) ownResponse(cred *world.Cred, desc string, sign int, a uint, k *big.Int, nsq int, ctx, nonce *big.Int) {
+	// m* with sign*(a*m* - k) = 30 >= 0 where possible
+	target := add(k, bi(int64(30*sign)))
+	if a == 0 || new(big.Int).Mod(target, bi(int64(a))).Sign() != 0 || target.Sign() < 0 {
+		return
+	}
+	mStar := new(big.Int).Div(target, bi(int64(a)))
+	ds := refimpl.FourSquares(bi(30))
+	if ds == nil || nsq > len(ds) {
+		return
+	}
+	if nsq == 3 {
+		ds = []*big.Int{bi(5), bi(2), bi(1)} // 25+4+1
+	}
+	dis, hid := hiddenOf(cred, []int{1})
+	p := refimpl.NewDProver(x.key.PK, cred.C.Signature, dis, hid)
+	rp := &refimpl.RangeProver{PK: x.key.PK, Index: 2, M: mStar, MRand: refimpl.RandBits(x.key.PK.Params.LmCommit), Sign: sign, A: a, K: k, Ld: 128, D: ds, OwnMResponse: true}
+	p.Extra = rp.Commit()
+	c := refimpl.Challenge(ctx, nonce, p.Commit(), false)
+	dd := p.Respond(c)
+	own := rp.Respond(c)
+	dd.RangeProofs = map[int][]*rangeproof.Proof{2: {own}}
+	x.verifyAndJudge("box-false-ref", desc+" range proof about a foreign value with its own m response (in memory)", dd, cred, ctx, nonce, false)
+	// on the wire: the member is injected under the field's JSON name if it has one, and under the names it could be given
+	names := map[string]bool{"m": true, "m_response": true, "MResponse": true, "mresponse": true, "m_resp": true}
+	if f, ok := reflect.TypeOf(rangeproof.Proof{}).FieldByName("MResponse"); ok {
+		if tag := strings.Split(f.Tag.Get("json"), ",")[0]; tag != "" && tag != "-" {
+			names[tag] = true
+		}
+	}
+	doc, err := json.Marshal(dd)
+	if err != nil {
+		return
+	}
+	for name := range names {
+		var tree map[string]any
+		if json.Unmarshal(doc, &tree) != nil {
+			return
+		}
+		rps, _ := tree["rangeproofs"].(map[string]any)
+		lst, _ := rps["2"].([]any)
+		if len(lst) != 1 {
+			return
+		}
+		obj, _ := lst[0].(map[string]any)
+		obj[name] = b64(own.MResponse)
+		mut, _ := json.Marshal(tree)
+		var rt gabi.ProofD
+		if json.Unmarshal(mut, &rt) != nil {
+			continue
+		}
+		x.verifyAndJudge("box-false-ref", fmt.Sprintf("%s range proof about a foreign value, own m response sent as member %q", desc, name), &rt, cred, ctx, nonce, false)
 	}
 }
 
